@@ -501,6 +501,16 @@ pub fn run(tier: &str, c10: bool) -> i32 {
         });
         retry_evals += a4.iter().map(|a| a.evals).sum::<u64>();
     }
+    // literal + 258-byte-match alternation behind every prefix length 0..=100
+    if !c10 {
+        let fam = corpus::lit258_inputs(th);
+        let lv: Vec<u8> = if th { vec![0, 1, 2, 4, 6, 9, 10] } else { vec![1, 6] };
+        let a5 = par_for(fam.len(), Acc::new, |i, acc| {
+            watchdog::tick(4_000_000 + i as u64, 0);
+            c01_case(&fam[i], &lv, acc, &rep, false);
+        });
+        retry_evals += a5.iter().map(|a| a.evals).sum::<u64>();
+    }
     // 64 fixed inputs x all 256 levels (C01)
     let mut all_levels_evals = 0u64;
     if !c10 {
